@@ -199,6 +199,13 @@ func BodiesOf(decl *ast.FuncDecl) []Body {
 			if l, ok := s.Call.Fun.(*ast.FuncLit); ok {
 				kinds[l] = "defer"
 			}
+		case *ast.CallExpr:
+			// g.Go(func() error { … }) — errgroup-style spawn: the literal runs on its own goroutine
+			if sel, ok := s.Fun.(*ast.SelectorExpr); ok && sel.Sel.Name == "Go" && len(s.Args) == 1 {
+				if l, ok := s.Args[0].(*ast.FuncLit); ok {
+					kinds[l] = "go"
+				}
+			}
 		case *ast.FuncLit:
 			k := kinds[s]
 			if k == "" {
